@@ -1149,6 +1149,13 @@ def _order_constraints_ok(decls, prof):
     return True
 
 
+def _foreign_names_used(mod, groups, b):
+    """Names of other modules' symbols that the declarations generated so far refer to (they will be imported, so
+    the module cannot declare a symbol of the same name any more)."""
+    partial = dict(mod, decls=[d for g in groups for d in g])
+    return set(s_ for m_, s_ in _needs(partial, b))
+
+
 @st.composite
 def module_sets(draw, prof=None):
     prof = prof or profile()
@@ -1199,7 +1206,9 @@ def module_sets(draw, prof=None):
                     parent_name, parent_num = cname, cnum
                 groups.append(chain)
             # a scalar named like a table column (or scalar) of an earlier module
+            used = _foreign_names_used(mod, groups, b)
             fobjs = [o for o in b.objects if o['module'] != mname and o['role'] in ('column', 'scalar') and not o.get('fixture')
+                     and o['name'] not in used
                      and not any(n['module'] == mname and n['name'] == o['name'] for n in b.nodes)]
             if fobjs and 'scalar' in kinds and draw(st.booleans()):
                 o = draw(st.sampled_from(fobjs))
@@ -1213,7 +1222,9 @@ def module_sets(draw, prof=None):
                     b.hide = set()
                 groups.append(d_)
             # a table whose first column (a likely INDEX member) is named like an object of an earlier module
-            fobjs = [o for o in fobjs if not any(n['module'] == mname and n['name'] == o['name'] for n in b.nodes)]
+            used = _foreign_names_used(mod, groups, b)
+            fobjs = [o for o in fobjs if o['name'] not in used
+                     and not any(n['module'] == mname and n['name'] == o['name'] for n in b.nodes)]
             if fobjs and 'table' in kinds and draw(st.booleans()):
                 o = draw(st.sampled_from(fobjs))
                 saved = b.names.lower
